@@ -6,6 +6,7 @@ Template extraction (never guesses: anything that does not match raises Template
 * UnionRegion.genericSampler          -> unionDimOp, unionWeight (size | one), unionCount (allRegs | largeRegs),
                                          unionAccept (invCount | always)
 * DifferenceRegion.genericSampler     -> diffRejectsInB
+* Intersection/Union/DifferenceRegion._trueContainsPoint -> interTrue / unionTrue / diffTrue (structural | inherited)
 * PointSetRegion.intersect.sampler    -> ballFilter (and that the ball is `o.circumcircle`), ballFallback (the
                                          `hasattr(o, "circumcircle")` guard: all points | AttributeError)
 * PolygonalRegion.uniformPointInner   -> polygonOuterFilter (candidates outside self.polygons are discarded and redrawn)
@@ -556,12 +557,50 @@ def _membership(tree):
     return out
 
 
+def _composed(tree):
+    """`_trueContainsPoint` of the three composed region classes: absent (inherits Region._trueContainsPoint = containsPoint,
+    the footprint test) | structural over the operands' `_trueContainsPoint`"""
+    out = {}
+
+    def tcp_call(n, obj_test, arg):
+        return (_call_attr(n, "_trueContainsPoint") and obj_test(n.func.value) and len(n.args) == 1 and not n.keywords
+                and is_name(n.args[0], arg))
+    for key, cname, agg in (("interTrue", "IntersectionRegion", "all"), ("unionTrue", "UnionRegion", "any"), ("diffTrue", "DifferenceRegion", None)):
+        cls = get_def(tree, cname, REL)
+        m = [n for n in cls.body if isinstance(n, ast.FunctionDef) and n.name == "_trueContainsPoint"]
+        if not m:
+            out[key] = "inherited"
+            continue
+        expect(len(m) == 1 and len(m[0].args.args) == 2, f"{cname}._trueContainsPoint(self, point)")
+        arg = m[0].args.args[1].arg
+        b = body_nodoc(m[0])
+        expect(len(b) == 1 and isinstance(b[0], ast.Return), f"{cname}._trueContainsPoint: a single return")
+        v = b[0].value
+        if agg is not None:
+            expect(isinstance(v, ast.Call) and is_name(v.func, agg) and len(v.args) == 1 and isinstance(v.args[0], ast.GeneratorExp),
+                   f"{cname}._trueContainsPoint: {agg}(... for region in self.regions)")
+            g = v.args[0]
+            expect(len(g.generators) == 1 and not g.generators[0].ifs and isinstance(g.generators[0].target, ast.Name)
+                   and _self_attr(g.generators[0].iter, "regions"), f"{cname}._trueContainsPoint: ranges over self.regions")
+            var = g.generators[0].target.id
+            expect(tcp_call(g.elt, lambda o: is_name(o, var), arg), f"{cname}._trueContainsPoint: region._trueContainsPoint(point)")
+        else:
+            expect(isinstance(v, ast.BoolOp) and isinstance(v.op, ast.And) and len(v.values) == 2
+                   and tcp_call(v.values[0], lambda o: _self_attr(o, "regionA"), arg)
+                   and isinstance(v.values[1], ast.UnaryOp) and isinstance(v.values[1].op, ast.Not)
+                   and tcp_call(v.values[1].operand, lambda o: _self_attr(o, "regionB"), arg),
+                   f"{cname}._trueContainsPoint: regionA._trueContainsPoint(p) and not regionB._trueContainsPoint(p)")
+        out[key] = "structural"
+    return out
+
+
 def extract():
     src, tree = load(REL)
     d = {}
     d.update(_intersection(tree))
     d.update(_union(tree))
     d.update(_difference(tree))
+    d.update(_composed(tree))
     d.update(_pointset(tree))
     d["sector"] = _sector_circ(tree)
     d["circ"] = _circ_table(tree)
@@ -586,7 +625,8 @@ open Scenic.RegionSampling
 /-- shapes of the generic samplers in src/scenic/core/regions.py -/
 def samplerCfg : SamplerCfg :=
   {{ interDimOp := .{d['interDimOp']}, interChecksAll := {b(d['interChecksAll'])}, unionDimOp := .{d['unionDimOp']}, unionWeight := .{d['unionWeight']},
-    unionCount := .{d['unionCount']}, unionAccept := .{d['unionAccept']}, unionSelf := .{d['unionSelf']}, diffRejectsInB := {b(d['diffRejectsInB'])} }}
+    unionCount := .{d['unionCount']}, unionAccept := .{d['unionAccept']}, unionSelf := .{d['unionSelf']}, diffRejectsInB := {b(d['diffRejectsInB'])},
+    interTrue := .{d['interTrue']}, unionTrue := .{d['unionTrue']}, diffTrue := .{d['diffTrue']} }}
 /-- the membership test of the sampler installed by PointSetRegion.intersect -/
 def ballFilter : BallFilter := .{d['ballFilter']}
 /-- what that sampler does when the other region has no `circumcircle` -/
